@@ -1,6 +1,7 @@
 package main
 
 import (
+	"sync"
 	"os"
 	"encoding/hex"
 	"io"
@@ -52,6 +53,28 @@ func (c *memConn) RemoteAddr() net.Addr             { return nil }
 func (c *memConn) SetDeadline(time.Time) error      { return nil }
 func (c *memConn) SetReadDeadline(time.Time) error  { return nil }
 func (c *memConn) SetWriteDeadline(t time.Time) error { c.wdeadline = t; return nil }
+
+// gatedRW: writes wait until the gate opens (a momentarily slow connection); reads wait for data
+type gatedRW struct {
+	memConn
+	mu   sync.Mutex
+	gate chan struct{}
+	data chan []byte
+	got  []byte
+}
+
+func (g *gatedRW) Write(p []byte) (int, error) {
+	<-g.gate
+	g.mu.Lock()
+	g.got = append(g.got, p...)
+	g.mu.Unlock()
+	return len(p), nil
+}
+
+func (g *gatedRW) Read(p []byte) (int, error) {
+	d := <-g.data
+	return copy(p, d), nil
+}
 
 func runC17(seed int64, count int) {
 	rng := rand.New(rand.NewSource(seed))
@@ -173,6 +196,28 @@ func runC17(seed int64, count int) {
 			w(payload(1 + rng.Intn(3)))
 			t4.Flush()
 			emit("C17 dl %s %s", hexOrDash(accepted), hexOrDash(c4.all))
+		}
+		// full duplex: one goroutine sits in Read while another writes and flushes; the connection's first write is slow.
+		// The peer must receive what was written exactly once.
+		if rs > 0 && ws > 0 && cs%5 == 0 {
+			gc := &gatedRW{gate: make(chan struct{}), data: make(chan []byte, 1)}
+			t5 := transport.NewTransport(gc, rs, ws)
+			msg := payload(1 + rng.Intn(ws))
+			t5.Write(msg) // pending in the write buffer
+			rdone := make(chan struct{})
+			go func() { defer close(rdone); buf := make([]byte, 4); t5.Read(buf) }()
+			time.Sleep(2 * time.Millisecond)
+			fdone := make(chan struct{})
+			go func() { defer close(fdone); t5.Flush() }()
+			time.Sleep(2 * time.Millisecond)
+			close(gc.gate)
+			<-fdone
+			gc.data <- []byte("pong")
+			<-rdone
+			gc.mu.Lock()
+			got := append([]byte(nil), gc.got...)
+			gc.mu.Unlock()
+			emit("C17 iso %s %s", hexOrDash(msg), hexOrDash(got))
 		}
 		// connections are independent: after this transport is closed (once or twice) and written to once more by a
 		// holder that has not noticed, new transports of the same configuration carry exactly their own bytes
